@@ -17,6 +17,9 @@ import ftutil as U
 import store_hist as H
 
 ID = "C05"
+# the model numbers fiber identities and rank lists in construction (DFS) order: no post-construction
+# re-assignment of sub-trees in the shared builder (the histories themselves contain such assignments)
+REASSIGN_MODE = False
 THEOREMS = ["C05_positions", "C05_generator_position_free", "C05_offers", "C05_offers_meaning", "C05_result",
             "C05_outside_content", "C05_outside_untouched", "C05_no_residue", "C05_no_residue_ext",
             "C05_no_residue_refbelow_refuted", "C05_raw_all_levels",
